@@ -90,7 +90,7 @@ func verifAnyZone() *time.Location {
 // ranges time out and are reported as a reduced bound, see DESIGN.md)
 func verifC19SecRange() int64 {
 	if verifThorough() {
-		return 1 << 36
+		return 1 << 32
 	}
 	return 1 << 24
 }
